@@ -32,12 +32,14 @@ INT_TYPES = {"u8", "u16", "u32", "u64", "u128", "usize", "i8", "i16", "i32", "i6
 
 
 class Site:
-    __slots__ = ("fn", "kind", "desc", "node", "loc", "facts", "mac", "key", "parents")
+    __slots__ = ("fn", "kind", "desc", "node", "loc", "facts", "mac", "key", "parents", "rawkey", "tymap")
 
     def __init__(self, fn, kind, desc, node, facts, mac, parents):
         self.fn, self.kind, self.desc, self.node, self.facts, self.mac, self.parents = fn, kind, desc, node, facts, mac, parents
         self.loc = ir.loc(node)
         self.key = None
+        self.rawkey = None
+        self.tymap = None
 
 
 # ------------------------------------------------------------------ fact extraction from conditions
@@ -262,11 +264,7 @@ def collect_sites(P, b):
 
     visit(b["body"], [], "", ())
     # ordinals for stable keys
-    counts = {}
-    for s in sites:
-        base = "%s|%s|%s" % (s.fn, s.kind, _key_desc(s))
-        counts[base] = counts.get(base, 0) + 1
-        s.key = base if counts[base] == 1 else "%s#%d" % (base, counts[base])
+    _assign_keys(b, sites)
     return sites
 
 
@@ -292,6 +290,75 @@ def _idx_desc(i):
 
 def _key_desc(s):
     return re.sub(r"\s+", " ", s.desc)[:120]
+
+
+def short_type(t):
+    """`&mut std::vec::Vec<u8>` -> `&mut Vec`: type name without path, generics and lifetimes"""
+    t = t or "?"
+    pre = ""
+    m = re.match(r"^(&(?:'\w+ )?(?:mut )?)", t)
+    if m:
+        pre, t = ("&mut " if "mut" in m.group(1) else "&"), t[m.end():]
+    out, depth = [], 0
+    for ch in t:
+        if ch == "<":
+            depth += 1
+        elif ch == ">":
+            depth -= 1
+        elif depth == 0:
+            out.append(ch)
+    t = "".join(out).strip()
+    if t.startswith(("[", "(")):
+        return pre + re.sub(r"[\w:]+::", "", t)
+    return pre + t.rsplit("::", 1)[-1]
+
+
+def type_map(b):
+    """local name -> short type for one body (first binding wins); used to make site keys independent of variable names"""
+    memo = b.get("_tymap")
+    if memo is not None:
+        return memo
+    out = {}
+
+    def go(n):
+        if isinstance(n, dict):
+            if n.get("k") == "bind" and n.get("name") and "hid" in n:
+                nm = n["name"]
+                if nm not in ("self", "__self") and nm not in out:
+                    out[nm] = short_type(n.get("t"))
+            for v in n.values():
+                go(v)
+        elif isinstance(n, (list, tuple)):
+            for v in n:
+                go(v)
+    go(b.get("params"))
+    go(b["body"])
+    b["_tymap"] = out
+    return out
+
+
+def norm_text(tymap, text):
+    """replace every local variable name in `text` by `$<short type>`"""
+    if not tymap or not text:
+        return text
+    rx = re.compile(r"(?<![\w$.:])(" + "|".join(sorted(map(re.escape, tymap), key=len, reverse=True)) + r")\b(?!\s*\(|::)")
+    text = text.replace("..", "\u2025")
+    return rx.sub(lambda m: "$" + tymap[m.group(1)], text).replace("\u2025", "..")
+
+
+def _assign_keys(b, sites):
+    """stable keys: function | kind | descriptor with local names replaced by their types, plus an ordinal for repeats.
+    A rename of a local variable leaves every key unchanged."""
+    tm = type_map(b)
+    counts, rcounts = {}, {}
+    for s in sites:
+        s.tymap = tm
+        raw = "%s|%s|%s" % (s.fn, s.kind, _key_desc(s))
+        rcounts[raw] = rcounts.get(raw, 0) + 1
+        s.rawkey = raw if rcounts[raw] == 1 else "%s#%d" % (raw, rcounts[raw])
+        base = "%s|%s|%s" % (s.fn, s.kind, norm_text(tm, _key_desc(s)))
+        counts[base] = counts.get(base, 0) + 1
+        s.key = base if counts[base] == 1 else "%s#%d" % (base, counts[base])
 
 
 # ------------------------------------------------------------------ automatic discharge
@@ -647,11 +714,7 @@ def collect_decode_sites(P, b, param_idx=()):
             visit(c, facts, np_)
 
     visit(b["body"], [], ())
-    counts = {}
-    for s in out:
-        base = "%s|%s|%s" % (s.fn, s.kind, _key_desc(s))
-        counts[base] = counts.get(base, 0) + 1
-        s.key = base if counts[base] == 1 else "%s#%d" % (base, counts[base])
+    _assign_keys(b, out)
     return out
 
 
